@@ -112,6 +112,7 @@ type Leaf struct {
 	Path string
 	Sort string
 	Typ  types.Type
+	Zero string // zero value term for packed element leaves
 }
 
 func isByte(t types.Type) bool {
@@ -145,23 +146,23 @@ func (e *Env) leavesOf(t types.Type) []Leaf {
 		var out []Leaf
 		for i := 0; i < u.NumFields(); i++ {
 			for _, l := range e.leavesOf(u.Field(i).Type()) {
-				out = append(out, Leaf{"." + u.Field(i).Name() + l.Path, l.Sort, l.Typ})
+				out = append(out, Leaf{Path: "." + u.Field(i).Name() + l.Path, Sort: l.Sort, Typ: l.Typ})
 			}
 		}
 		return out
 	case *types.Slice:
 		it := types.Typ[types.Int]
-		return []Leaf{{"#arr", sInt, it}, {"#off", sInt, it}, {"#len", sInt, it}, {"#cap", sInt, it}}
+		return []Leaf{{Path: "#arr", Sort: sInt, Typ: it}, {Path: "#off", Sort: sInt, Typ: it}, {Path: "#len", Sort: sInt, Typ: it}, {Path: "#cap", Sort: sInt, Typ: it}}
 	case *types.Tuple:
 		var out []Leaf
 		for i := 0; i < u.Len(); i++ {
 			for _, l := range e.leavesOf(u.At(i).Type()) {
-				out = append(out, Leaf{fmt.Sprintf("#%d%s", i, l.Path), l.Sort, l.Typ})
+				out = append(out, Leaf{Path: fmt.Sprintf("#%d%s", i, l.Path), Sort: l.Sort, Typ: l.Typ})
 			}
 		}
 		return out
 	default:
-		return []Leaf{{"", e.scalarSort(t), t}}
+		return []Leaf{{Path: "", Sort: e.scalarSort(t), Typ: t}}
 	}
 }
 
@@ -250,6 +251,9 @@ func (e *Env) fromLeaves(t types.Type, terms []string) Value {
 }
 
 func (e *Env) zeroLeaf(l Leaf) string {
+	if l.Zero != "" {
+		return l.Zero
+	}
 	switch l.Sort {
 	case sBool:
 		return tFalse
